@@ -329,11 +329,13 @@ def draw(V, ridges, scale, margin=4):
         return fg
 
 
-def voronoi_image(rng, ncells, px, style=None, min_ridge_px=12.0, min_angle=28.0, tries=400):
+def voronoi_image(rng, ncells, px, style=None, min_ridge_px=14.0, min_angle=28.0, tries=400):
     """skeleton image of a Voronoi tissue in the regime of C15 -> (img uint8 with frame, meta) or (None, None).
     ncells 4..60, px = sqrt(mean cell area) in pixels, 35..90."""
     style = style or ("hex" if ncells > 14 else rng.choice(["random", "random", "hex"]))
     for attempt in range(tries):
+        if attempt == tries // 2:
+            style = "hex"       # irregular tissues with only long ridges are rare: fall back to the regular family
         t = voronoi_tissue(rng, ncells, style)
         if t is None:
             continue
